@@ -42,3 +42,48 @@ package sync
 //@   loop 0 invariant d != nil && d.ethClient != nil && d.log != nil && d.rh != nil && query.FromBlock != nil && query.ToBlock != nil && bigval(query.FromBlock) == fromBlock && bigval(query.ToBlock) == toBlock
 //@   loop 1 invariant qFrom == fromBlock && qTo == toBlock && len(unfilteredLogs) == logsCount(fromBlock, toBlock) && off(unfilteredLogs) == 0 && seq(unfilteredLogs) == logsIn(fromBlock, toBlock) && off(logs) == 0
 //@   loop 1 invariant forall(k, 0, len(logs), exists(j, 0, logsCount(fromBlock, toBlock), logs[k] == logsIn(fromBlock, toBlock)[j] && !logsIn(fromBlock, toBlock)[j].Removed))
+
+// ---- the download loop (C05): blocks are scanned for watched events in increasing, gap-free ranges starting at the
+// first block requested; a block without events is only reported (which moves the last-processed marker) after the
+// range up to it has been scanned. scanNext / scanGap observe the scans.
+//@ ghost var scanNext int
+//@ ghost var scanGap bool
+//@ interface github.com/agglayer/aggkit/sync.EVMDownloaderInterface.WaitForNewBlocks (self, ctx, lastBlockSeen)
+//@   modifies nothing
+//@   ensures result >= lastBlockSeen && result < 9223372036854775808
+//@ interface github.com/agglayer/aggkit/sync.EVMDownloaderInterface.GetLastFinalizedBlock (self, ctx)
+//@   modifies nothing
+//@   ensures result1 == nil ==> result0 != nil && result0.Number != nil && 0 <= bigval(result0.Number) && bigval(result0.Number) < 18446744073709551615
+//@ interface github.com/agglayer/aggkit/sync.EVMDownloaderInterface.GetEventsByBlockRange (self, ctx, fromBlock, toBlock)
+//@   modifies scanNext, scanGap
+//@   ensures scanGap == (old(scanGap) || fromBlock > old(scanNext))
+//@   ensures scanNext == ite(toBlock + 1 > old(scanNext) && fromBlock <= old(scanNext), toBlock + 1, old(scanNext))
+//@   ensures forall(k, 0, len(result), result[k] != nil && fromBlock <= result[k].Num && result[k].Num <= toBlock)
+//@ interface github.com/agglayer/aggkit/sync.EVMDownloaderInterface.GetBlockHeader (self, ctx, blockNum)
+//@   modifies nothing
+//@   ensures !result1 ==> result0.Num == blockNum
+
+//@ func (d *EVMDownloader) reportBlocks
+//@   props C05
+//@   requires d != nil && d.log != nil
+//@   requires forall(k, 0, len(blocks), blocks[k] != nil)
+//@   modifies region("chan:sync.EVMBlock.sent"), region("chan:sync.EVMBlock.nsent"), region("sync.EVMBlock.IsFinalizedBlock")
+//@   loop 0 invariant d != nil && d.log != nil && forall(k, 0, len(blocks), blocks[k] != nil)
+
+//@ func (d *EVMDownloader) reportEmptyBlock
+//@   props C05
+//@   requires d != nil && d.log != nil && d.EVMDownloaderInterface != nil
+//@   requires[marker-only-after-the-scan] blockNum < scanNext
+//@   modifies region("chan:sync.EVMBlock.sent"), region("chan:sync.EVMBlock.nsent")
+
+//@ func (d *EVMDownloader) Download
+//@   props C05
+//@   requires d != nil && d.log != nil && d.EVMDownloaderInterface != nil
+//@   requires scanNext == fromBlock && !scanGap && fromBlock < 9223372036854775808 && d.syncBlockChunkSize < 4294967296
+//@   modifies heap, scanNext, scanGap
+//@   ensures[no-block-skipped] !scanGap
+//@   loop 0 invariant d != nil && d.log != nil && d.EVMDownloaderInterface != nil && d.syncBlockChunkSize < 4294967296
+//@   loop 0 invariant lastBlock < 9223372036854775808
+//@   loop 0 invariant fromBlock <= 9223372036854775808
+//@   loop 0 invariant !scanGap
+//@   loop 0 invariant fromBlock <= scanNext
